@@ -23,7 +23,8 @@
     of `Verifier.VerifyVP(vp, true, true, nil)` (supplied by the harness, never assumed).
   * PEX (`PresentationSubmission.Validate`) is a verdict per configured definition (`pex : key → Bool`),
     and the constraint-id map that `resolveInputDescriptorValues` produces is data (`claims`).
-  * time is a number of milliseconds supplied with every operation.
+  * time is a number of ticks (the driver uses nanoseconds, `Cfg.second` ticks per second) supplied with every
+    operation; durations are regenerated facts.
   * random identifiers (`crypto.GenerateNonce`) are consecutive numbers: `tok#n`, `code#n`.
   * SHA-256/base64 of the PKCE verifier is a parameter `sha : String → String` (the driver receives the
     real digests as data).
@@ -110,6 +111,11 @@ structure Cfg where
   oauthNonceTtl : Nat
   stateTtl : Nat
   verifierSkew : Nat
+  /-- time units per second (`Unix()` truncates to seconds) -/
+  second : Nat
+  /-- does the credential-less branch of `validatePresentationSigner` compare the signer with the subject
+      established by the preceding presentations? (regenerated fact) -/
+  emptyVpChecked : Bool
   reserved : List String
   marshalOrder : List String
   publicURL : String
@@ -196,10 +202,12 @@ def resolveSubject : List (Option String) → String → Res String
     if cur ≠ "" ∧ cur ≠ s then .err "invalid_request/vcs-mixed-subjects" else resolveSubject rest s
 
 /-- `validatePresentationSigner(presentation, expected)`; `expected = ""` is the empty DID -/
-def validateSigner (vp : VP) (expected : String) : Res String :=
+def validateSigner (cfg : Cfg) (vp : VP) (expected : String) : Res String :=
   if vp.subjects = [] then
     match vp.signer with
-    | some s => .ok s
+    | some s =>
+      if cfg.emptyVpChecked = true ∧ expected ≠ "" ∧ s ≠ expected then .err "invalid_request/vps-mixed-subjects"
+      else .ok s
     | none => .err "invalid_request/signer-unresolvable"
   else
     match vp.signer with
@@ -223,7 +231,7 @@ def s2sPre (cfg : Cfg) (subject : String) : List VP → String → Res String
   | vp :: rest, cur =>
     match checkValidity cfg vp with
     | .ok _ =>
-      match validateSigner vp cur with
+      match validateSigner cfg vp cur with
       | .ok s =>
         match checkAudience cfg subject vp with
         | .ok _ => s2sPre cfg subject rest s
@@ -238,7 +246,7 @@ def s2sPre (cfg : Cfg) (subject : String) : List VP → String → Res String
 def codePre (cfg : Cfg) (subject : String) : List VP → String → Res String
   | [], cur => .ok cur
   | vp :: rest, cur =>
-    match validateSigner vp cur with
+    match validateSigner cfg vp cur with
     | .ok s =>
       match checkAudience cfg subject vp with
       | .ok _ => codePre cfg subject rest s
@@ -270,17 +278,17 @@ def Consumer.next (c : Consumer) : Option String :=
   if c.pending "organization" = true then some "organization"
   else if c.pending "user" = true then some "user" else none
 
-/-- second loop of the s2s handler: `validateS2SPresentationNonce` per presentation. The nonce is stored
-    (again) whatever the verdict. -/
+/-- second loop of the s2s handler: `validateS2SPresentationNonce` per presentation =
+    `s2sNonceStore().PutIfAbsent(nonce, true)`: a nonce that is still remembered is refused (and left as it is),
+    an unknown one is stored. -/
 def s2sNonceLoop (cfg : Cfg) (now : Nat) : List VP → Store Unit → Store Unit × Res Unit
   | [], st => (st, .ok ())
   | vp :: rest, st =>
     if vp.nonce = "" then (st, .err "invalid_request/nonce-missing")
     else
-      let st' := st.put now cfg.nonceTtl vp.nonce ()
       match st.get now vp.nonce with
-      | some _ => (st', .err "invalid_request/nonce-reused")
-      | none => s2sNonceLoop cfg now rest st'
+      | some _ => (st, .err "invalid_request/nonce-reused")
+      | none => s2sNonceLoop cfg now rest (st.put now cfg.nonceTtl vp.nonce ())
 
 def parseDPoP : DPoPIn → Res (Option DPoP)
   | .absent => .ok none
@@ -322,7 +330,7 @@ def createAccessToken (cfg : Cfg) (w : World) (now : Nat) (issuer clientId scope
                              defs := c.required, submissions := c.fulfilled, vps := c.vps }
     ({ w with tokens := w.tokens.put now cfg.tokenTtl name rec_, nextTok := w.nextTok + 1 },
      .ok { token := name, tokenType := if dpop.isSome then "DPoP" else "Bearer", dpopKid := dpop.map (·.kid),
-           scope := scope, expiresIn := cfg.tokenValidity / 1000 })
+           scope := scope, expiresIn := cfg.tokenValidity / cfg.second })
   | .err e => (w, .err e)
   | .panic p => (w, .panic p)
 
@@ -547,7 +555,7 @@ def introspect (cfg : Cfg) (w : World) (now : Nat) (input : String) : Res (Optio
         | some r => .err ("reserved-claim:" ++ r)
         | none =>
           .ok (some { active := true, cnf := t.dpop.map (fun d => "{\"jkt\":" ++ jstr d.jkt ++ "}"),
-                      iat := some (t.issuedAt / 1000), exp := some (t.expiration / 1000),
+                      iat := some (t.issuedAt / cfg.second), exp := some (t.expiration / cfg.second),
                       iss := some (jstr t.issuer), clientId := some (jstr t.clientId), scope := some (jstr t.scope),
                       vps := some (toString t.vps), pds := some (renderDefs t.defs),
                       pss := some (renderSubs t.submissions), additional := t.claims })
